@@ -181,7 +181,7 @@ func genOpts(r *mon.Rand, cfg mon.Config, mode gspec.Mode) gspec.GenOpts {
 func TestCheck(t *testing.T) {
 	cfg := mon.Load(ID)
 	rep := mon.NewReporter(cfg, "exploration",
-		"generated specs with parallel nodes, nested graphs and mixed paradigms, run in all four paradigms under 4 (quick) / 8 (thorough) handler layouts: a process-global handler, 1-5 separate WithCallbacks options (handler slices with spare capacity), handlers designated to nodes and to node paths inside nested graphs, each handler reading its stream copies fully / closing at once / reading one chunk. Oracle: recording handlers against an expected invocation table built from the reference executions: for every (handler, unit) #start = #end+#error = number of executions of that unit the handler applies to, an end never precedes its start, run info names the unit, Invoke payloads equal what the unit consumed/produced; a designated handler never fires for another unit; the result equals the reference whatever the handlers do with their stream copies; race detector. Failing runs (3 per spec): a node body returns an error or panics (string / error / nil dereference) or a branch condition fails, under global, undesignated and designated handlers (the failing node, a nested graph around it, some other unit), any paradigm: after the process has settled every started unit - the failing one and the graph included - has ended exactly once (end or error), designated handlers fired for their own units only. Tools workload (a sixth of the cases, 2 graphs x 4 paradigms each): 1-2 lanes chat model -> tools node, the tools node or the lane inside a nested graph (<=2 levels), invokable-only / streamable-only / both-form tools with and without components.Checker (framework-injected vs. self-fired callbacks), tool lists given at construction or per call, 1-6 calls per message with repeated and unknown tool names (UnknownToolsHandler present or not), calls that fail, panic (first call = the node's own goroutine, others on their own) or put an error item into their stream; expected invocation table per (handler, unit) incl. every tool call as a unit of its own (run info name = called name, component Tool, payload = that call's arguments / answer, stream copies read to the end carry that call's answer), handlers designated to tools nodes / nested graphs / node paths; result unaffected by what handlers do with their copies. Non-trivial: a run with >=2 handlers of which >=1 designated and >=3 executed units; distinct = (spec, layout, paradigm).",
+		"generated specs with parallel nodes, nested graphs and mixed paradigms, run in all four paradigms under 4 (quick) / 8 (thorough) handler layouts: a process-global handler, 1-5 separate WithCallbacks options (handler slices with spare capacity), handlers designated to nodes and to node paths inside nested graphs, each handler reading its stream copies fully / closing at once / reading one chunk. Oracle: recording handlers against an expected invocation table built from the reference executions: for every (handler, unit) #start = #end+#error = number of executions of that unit the handler applies to, an end never precedes its start, run info names the unit, Invoke payloads equal what the unit consumed/produced; a designated handler never fires for another unit; the result equals the reference whatever the handlers do with their stream copies; race detector. Failing runs (3 per spec): a node body returns an error or panics (string / error / nil dereference), a branch condition fails or a state pre-/post-handler panics on the run loop of its graph (top-level or nested), under global, undesignated and designated handlers (the failing node, a nested graph around it, some other unit), any paradigm: after the process has settled every started unit - the failing one and the graph included - has ended exactly once (end or error), the graph whose run loop failed got OnError, designated handlers fired for their own units only. Run-loop workload (a sixth of the cases, 2-3 specs each, 1 clean + 3-4 failing runs per spec): Graph (both trigger modes) / Chain / Workflow specs nested up to 2 deep made of single nodes, side-by-side nodes and branches with planned answers; exactly one site on the planned path - a branch condition (value / stream, single / multi) or a state pre- / post-handler (value / stream) - returns an error or panics (string / error / nil dereference / struct value; stream forms before reading, after one chunk, after the whole input); the call runs under recover (the panic of a top-level run loop may reach the caller); oracle: every unit starts at most once and ends as often as it starts, the graph whose run loop failed and every graph around it started once and ended once with OnError and without OnEnd, every unit the plan puts before the site has one start and one end, the clean run matches the exact table (planned units once, others never), designated handlers (the failing graph, a graph around it, the node of the handler, any unit) fire for their units only. Self-firing workload (same cases, 2-3 specs x 4 paradigms): 1-3 lanes ChatTemplate -> ChatModel -> Lambda (1-2 rounds) or Lambda -> Retriever -> Lambda, in the top graph or nested up to 2 deep, Graph / Chain / Workflow; bundled prompt.FromMessages templates (FString / GoTemplate, 1-4 MessagesTemplates of which at most one returns an error, panics, names an unknown variable or is a required placeholder without value) next to own components with IsCallbacksEnabled()==true (well-behaved; counted, and the framework must not fire for them a second time) and own components without (framework-injected; may fail or panic); exact table per (handler, unit): units before the failing one once with OnEnd, the failing unit and the graphs around it once with OnError and no OnEnd, units behind it never; other lanes of a failing run: at most one start, as many ends as starts; run info component checked. Tools workload (a sixth of the cases, 2 graphs x 4 paradigms each): 1-2 lanes chat model -> tools node, the tools node or the lane inside a nested graph (<=2 levels), invokable-only / streamable-only / both-form tools with and without components.Checker (framework-injected vs. self-fired callbacks), tool lists given at construction or per call, 1-6 calls per message with repeated and unknown tool names (UnknownToolsHandler present or not), calls that fail, panic (first call = the node's own goroutine, others on their own) or put an error item into their stream; expected invocation table per (handler, unit) incl. every tool call as a unit of its own (run info name = called name, component Tool, payload = that call's arguments / answer, stream copies read to the end carry that call's answer), handlers designated to tools nodes / nested graphs / node paths; result unaffected by what handlers do with their copies. Non-trivial: a run with >=2 handlers of which >=1 designated and >=3 executed units; distinct = (spec, layout, paradigm).",
 		[]string{"pass-through nodes fire no node-level callbacks by design (only pairing is required for them)", "units are identified by the node name (set to the node key)"},
 		100)
 	defer func() {
@@ -190,16 +190,30 @@ func TestCheck(t *testing.T) {
 		}
 	}()
 	callbacks.AppendGlobalHandlers(newHandler("GLOBAL", nil, readAll))
-	for _, k := range []string{"failure_runs_node-body_panic", "failure_runs_node-body_error", "failure_victim_checks", "tools_failing_runs",
+	for _, k := range []string{"failure_runs_node-body_panic", "failure_runs_node-body_error", "failure_victim_checks", "failure_owner_graph_checks", "tools_failing_runs",
 		"tool_call_units_panicking", "tool_call_units_tool-call/unknown-handled", "tool_call_units_called_several_times",
 		"tool_call_units_tool-call/streamable/framework-injected", "tool_call_units_tool-call/invokable/tool-fires-itself",
-		"tools_pairs_designated", "tool_payloads_checked", "tool_stream_payloads_checked", "tools_results_checked"} {
+		"tools_pairs_designated", "tool_payloads_checked", "tool_stream_payloads_checked", "tools_results_checked",
+		"runloop_success_runs_judged", "runloop_fault_runs_branch-condition_panic", "runloop_fault_runs_branch-condition_error",
+		"runloop_fault_runs_state-pre-handler_panic", "runloop_fault_runs_state-post-handler_panic", "runloop_fault_runs_state-pre-handler_error",
+		"runloop_fault_runs_state-post-handler_error", "runloop_fault_runs_branch-condition_stream-form", "runloop_fault_runs_nested_panic",
+		"runloop_fault_runs_top-level_panic", "runloop_fault_runs_depth_2", "runloop_fault_runs_in_chain", "runloop_fault_runs_in_workflow",
+		"runloop_graph_units_judged_panic_faulting-graph/nested", "runloop_graph_units_judged_panic_faulting-graph/top-level",
+		"selffire_failing_unit_pairs_panic_bundled-ChatTemplate", "selffire_failing_unit_pairs_error_bundled-ChatTemplate",
+		"selffire_pairs_component-fires-itself/ChatTemplate", "selffire_pairs_component-fires-itself/Retriever", "selffire_runs_judged_none"} {
 		rep.Require(k, 20)
 	}
 	ctx := context.Background()
 	n := int64(cfg.Pick(480, 3000))
 	rep.Cases(n, func(idx int64, rng *mon.Rand) {
 		if idx%6 == 5 {
+			// run-loop failures and self-firing components (runloop_test.go, selffire_test.go)
+			for k := 0; k < cfg.Pick(2, 3); k++ {
+				runLoopCase(ctx, rep, rng.Sub(fmt.Sprintf("runloop%d", k)), cfg.Pick(3, 4), idx < 6 && k == 0)
+			}
+			for k := 0; k < cfg.Pick(2, 3); k++ {
+				selfFireCase(ctx, rep, rng.Sub(fmt.Sprintf("selffire%d", k)), idx < 6 && k == 0)
+			}
 			componentCase(ctx, rep, rng)
 			sharedExecutorCase(ctx, rep, rng.Sub("shared"))
 			for k := 0; k < cfg.Pick(2, 4); k++ {
@@ -218,8 +232,8 @@ type hspec struct {
 	Path []string `json:"path,omitempty"` // designated node path (nil: applies everywhere)
 	// More: further paths the same option is designated to (none is a prefix of another)
 	More [][]string `json:"more_paths,omitempty"`
-	Mode readMode `json:"mode"`
-	Opt  int      `json:"option"` // index of the WithCallbacks option carrying it
+	Mode readMode   `json:"mode"`
+	Opt  int        `json:"option"` // index of the WithCallbacks option carrying it
 }
 
 type unit struct {
@@ -243,7 +257,7 @@ func units(g *gspec.GraphSpec, prefix []string, out *[]unit) {
 }
 
 func specCase(ctx context.Context, rep *mon.Reporter, rng *mon.Rand, cfg mon.Config, spec *gspec.GraphSpec, sample bool) {
-	r, err := gspec.Build(ctx, spec, gspec.BuildOpts{Compile: []compose.GraphCompileOption{compose.WithGraphName("TOP")}})
+	r, err := gspec.Build(ctx, spec, gspec.BuildOpts{Compile: []compose.GraphCompileOption{compose.WithGraphName("TOP")}, OnState: stateHook})
 	if err != nil {
 		rep.Violation(ID+"/build-error", err.Error(), spec)
 		return
